@@ -45,3 +45,17 @@ Fixpoint failing (i : nat) (l : list bool) : list nat :=
   match l with [] => [] | b :: t => if b then failing (S i) t else i :: failing (S i) t end.
 
 Definition no_events {T} (l : list (event T)) : bool := match l with [] => true | _ => false end.
+
+(* attribute triples (index, rank, crowding) written by a survival: the last write per index must agree *)
+Definition attrs_agree (model expd : list (nat * nat * float)) : bool :=
+  forallb (fun e => match find (fun a => fst (fst a) =? fst (fst e)) (rev model) with
+                    | Some a => (snd (fst a) =? snd (fst e)) && fsame (snd a) (snd e)
+                    | None => false end) expd
+  && forallb (fun a => existsb (fun e => fst (fst e) =? fst (fst a)) expd) model.
+
+Definition pairs_agree (model expd : list (nat * nat)) : bool :=
+  forallb (fun e => match find (fun a => fst a =? fst e) (rev model) with
+                    | Some a => snd a =? snd e | None => false end) expd
+  && forallb (fun a => existsb (fun e => fst e =? fst a) expd) model.
+
+Definition no_more {E} (l : list E) : bool := match l with [] => true | _ => false end.
